@@ -622,4 +622,367 @@ theorem run_dichotomy {cfg : Cfg} {d : Dialect} (hd : d.OpBudget) {fuel : Nat} {
     · rw [hs0] at hce
       exact Or.inr (runProgram_of_loop h1 h2 hce)
 
+/-! ### (d) tightness, for dialects without cost-exempt guards -/
+
+/-- no softfork extension of the dialect is cost-exempt -/
+def Dialect.NoExempt (d : Dialect) : Prop := ∀ n, d.softforkExtension n ≠ .PreHardFork
+
+theorem parse_ext {d : Dialect} {ol : Val} {ext : OperatorSet} {prg env : Val}
+    (h : parseSoftforkArguments d ol = .ok (ext, prg, env)) : ∃ n, ext = d.softforkExtension n := by
+  unfold parseSoftforkArguments at h
+  split at h
+  · cases h
+  · split at h
+    · cases h
+    · rename_i n _
+      simp only at h
+      split at h
+      · cases h
+      · cases h; exact ⟨n, rfl⟩
+
+/-- how one step changes the softfork stack: not at all, or it enters a guard (whose expected cost,
+unless exempt, is within the limit in force), or it leaves the top guard (at exactly its expected
+cost unless exempt) -/
+theorem stepOp_sf_cases {cfg : Cfg} {d : Dialect} {s s' : MState} {op : Operation} {cost em c : Nat}
+    (h : stepOp cfg d s op cost em = .ok (c, s')) :
+    s'.softforkStack = s.softforkStack ∨
+    (∃ g, s'.softforkStack = g :: s.softforkStack ∧ (∃ n, g.operatorSet = d.softforkExtension n) ∧
+      (g.operatorSet ≠ .PreHardFork → cost ≤ em → g.expectedCost ≤ em)) ∨
+    (∃ g, s.softforkStack = g :: s'.softforkStack ∧ (g.operatorSet ≠ .PreHardFork → cost = g.expectedCost)) := by
+  cases op with
+  | Apply =>
+    simp only [stepOp] at h
+    match hvs : s.valStack, hes : s.envStack with
+    | [], _ => simp [applyOp, MState.pop, hvs, bind, Except.bind] at h
+    | [_], _ => simp [applyOp, MState.pop, hvs, bind, Except.bind] at h
+    | _ :: _ :: _, [] => simp [applyOp, MState.pop, hvs, hes, bind, Except.bind] at h
+    | ol :: o :: vals, e0 :: envs =>
+      rw [applyOp_eq cfg _ s _ _ hvs hes] at h
+      have hb : (s.applyBase vals envs).softforkStack = s.softforkStack := rfl
+      rw [← hb]
+      generalize s.applyBase vals envs = s0 at h
+      unfold applyBody at h
+      split at h
+      · unfold applyApply at h
+        obtain ⟨⟨no, env⟩, _, h⟩ := M_bind_ok h
+        obtain ⟨⟨c1, s1⟩, h1, h⟩ := M_bind_ok h
+        cases M_pure_ok h
+        exact Or.inl (evalPair_setSf [] h1).2
+      · split at h
+        · unfold applySoftfork at h
+          obtain ⟨f, _, h⟩ := M_bind_ok h
+          obtain ⟨ec, _, h⟩ := M_bind_ok h
+          split at h
+          · cases h
+          · rename_i hec
+            split at h
+            · cases h
+            · split at h
+              · split at h
+                · obtain ⟨s1, hp, h⟩ := M_bind_ok h
+                  cases M_pure_ok h
+                  exact Or.inl (push_setSf [] hp).2
+                · cases h
+              · rename_i ext prg env hparse
+                split at h
+                · cases h
+                · obtain ⟨⟨c1, s1⟩, hev, h⟩ := M_bind_ok h
+                  cases M_pure_ok h
+                  refine Or.inr (Or.inl ⟨_, (evalPair_setSf [] hev).2, parse_ext hparse, ?_⟩)
+                  intro hne hc
+                  show guardExpected s0 ext cost (em - cost) ec ≤ em
+                  unfold guardExpected
+                  have : (ext == OperatorSet.PreHardFork) = false := by
+                    cases hb : (ext == OperatorSet.PreHardFork)
+                    · rfl
+                    · exact absurd (by simpa using hb) hne
+                  simp only [this, Bool.false_eq_true, if_false]
+                  omega
+        · unfold applyOrdinary at h
+          split at h
+          · cases h
+          · cases h
+          · obtain ⟨s1, hp, h⟩ := M_bind_ok h
+            cases M_pure_ok h
+            exact Or.inl (push_setSf [] hp).2
+  | ExitGuard =>
+    simp only [stepOp] at h
+    unfold exitGuard at h
+    split at h
+    · cases h
+    · rename_i g rest hsf
+      simp only at h
+      split at h
+      · cases h
+      · rename_i hchk
+        split at h
+        · cases h
+        · obtain ⟨s1, hp, h⟩ := M_bind_ok h
+          cases M_pure_ok h
+          refine Or.inr (Or.inr ⟨g, ?_, ?_⟩)
+          · rw [(push_setSf [] hp).2]; exact hsf
+          · intro hne
+            have hex : g.costExempt = false := by
+              unfold SoftforkGuard.costExempt
+              cases hb : (g.operatorSet == OperatorSet.PreHardFork)
+              · rfl
+              · exact absurd (by simpa using hb) hne
+            simpa [hex] using hchk
+  | Cons => simp only [stepOp] at h; exact Or.inl (consOp_setSf [] h).2
+  | SwapEval => simp only [stepOp] at h; exact Or.inl (swapEvalOp_setSf [] h).2
+  | RestoreAllocator =>
+    simp only [stepOp] at h
+    split at h
+    · cases h
+    · split at h
+      · cases h
+      · cases h; exact Or.inl rfl
+
+/-- in a run without exempt guards, every guard on the softfork stack is left at exactly its
+expected cost, so the final cost is at least that -/
+theorem runLoop_guards_le {cfg : Cfg} {d : Dialect} (hne : d.NoExempt) (mc : Nat) (fuel : Nat) :
+    ∀ (s : MState) (cost C : Nat) (sF : MState), s.Shaped →
+      (∀ g ∈ s.softforkStack, g.operatorSet ≠ .PreHardFork) →
+      runLoop cfg d mc fuel s cost = some (.ok (C, sF)) → ∀ g ∈ s.softforkStack, g.expectedCost ≤ C := by
+  induction fuel with
+  | zero => intro s cost C sF _ _ h; simp [runLoop_zero] at h
+  | succ n ih =>
+    intro s cost C sF hsh hex h g hgm
+    rw [runLoop_succ] at h
+    unfold loopBody at h
+    split at h
+    · cases h
+    · split at h
+      · rename_i hop
+        have := (Shaped.final hsh hop).2.2.1
+        rw [this] at hgm; cases hgm
+      · rename_i op ops hop
+        split at h
+        · cases h
+        · rename_i c s1 hst
+          have hsh1 : s1.Shaped := stepOp_shape (s := { s with opStack := ops }) rfl
+            (by simpa [MState.Shaped, hop] using hsh) hst
+          have hge := runLoop_cost_ge cfg d mc n s1 (cost + c) C sF h
+          rcases stepOp_sf_cases hst with hsame | ⟨g', hpush, ⟨k, hk⟩, _⟩ | ⟨g', hpop, hcost⟩
+          · exact ih s1 _ C sF hsh1 (by rw [hsame]; exact hex) h g (by rw [hsame]; exact hgm)
+          · refine ih s1 _ C sF hsh1 ?_ h g (by rw [hpush]; exact List.mem_cons_of_mem _ hgm)
+            intro g0 hg0
+            rw [hpush] at hg0
+            rcases List.mem_cons.1 hg0 with rfl | hg0
+            · rw [hk]; exact hne k
+            · exact hex g0 hg0
+          · have hs : s.softforkStack = g' :: s1.softforkStack := hpop
+            rw [hs] at hgm
+            rcases List.mem_cons.1 hgm with rfl | hgm
+            · have := hcost (hex g (by rw [hs]; exact List.mem_cons_self))
+              omega
+            · exact ih s1 _ C sF hsh1 (fun g0 hg0 => hex g0 (by rw [hs]; exact List.mem_cons_of_mem _ hg0))
+                h g hgm
+
+theorem applyBody_tight {cfg : Cfg} {d : Dialect} (hd : d.OpBudget) (hne : d.NoExempt) {s s' : MState}
+    {ol o : Val} {cost em1 em2 c : Nat}
+    (hfit : s'.softforkStack = s.softforkStack → cost + c ≤ em2)
+    (hgd : ∀ g, s'.softforkStack = g :: s.softforkStack → g.expectedCost ≤ em2)
+    (h : applyBody cfg d s ol o cost (em1 - cost) = .ok (c, s')) :
+    applyBody cfg d s ol o cost (em2 - cost) = .ok (c, s') := by
+  unfold applyBody at h ⊢
+  split at h
+  · rename_i hk
+    rw [if_pos hk]; exact h
+  · rename_i hk
+    rw [if_neg hk]
+    split at h
+    · rename_i hk2
+      rw [if_pos hk2]
+      unfold applySoftfork at h ⊢
+      obtain ⟨f, hf, h⟩ := M_bind_ok h
+      obtain ⟨ec, hec, h⟩ := M_bind_ok h
+      rw [M_bind_eq hf, M_bind_eq hec]
+      split at h
+      · cases h
+      · split at h
+        · cases h
+        · rename_i h2
+          split at h
+          · split at h
+            · rename_i err hperr hallow
+              obtain ⟨s1, hp, h'⟩ := M_bind_ok h
+              cases M_pure_ok h'
+              have := hfit (push_setSf [] hp).2
+              have h1' : ¬ c > em2 - cost := by omega
+              rw [if_neg h1', if_neg h2]
+              simp only [hallow, if_true]
+              exact h
+            · cases h
+          · rename_i ext prg env hparse
+            split at h
+            · cases h
+            · rename_i hlim
+              obtain ⟨⟨c1, s1⟩, hev, h'⟩ := M_bind_ok h
+              cases M_pure_ok h'
+              obtain ⟨k, hk⟩ := parse_ext hparse
+              have hext : (ext == OperatorSet.PreHardFork) = false := by
+                cases hb : (ext == OperatorSet.PreHardFork)
+                · rfl
+                · exact absurd (by rw [← hk]; simpa using hb) (hne k)
+              have hge : guardExpected s ext cost (em1 - cost) ec = cost + ec := by
+                unfold guardExpected; simp only [hext, Bool.false_eq_true, if_false]
+              have hge2 : guardExpected s ext cost (em2 - cost) ec = cost + ec := by
+                unfold guardExpected; simp only [hext, Bool.false_eq_true, if_false]
+              have := hgd _ (evalPair_setSf [] hev).2
+              simp only [hge] at this
+              have h1' : ¬ ec > em2 - cost := by omega
+              rw [if_neg h1', if_neg h2]
+              rw [if_neg hlim]
+              simp only [hge2]
+              simp only [hge] at h
+              exact h
+    · rename_i hk2
+      rw [if_neg hk2]
+      unfold applyOrdinary at h ⊢
+      split at h
+      · cases h
+      · cases h
+      · rename_i cost' v c' hop
+        obtain ⟨s1, hp, h'⟩ := M_bind_ok h
+        cases M_pure_ok h'
+        have := hfit (push_setSf [] hp).2
+        have := hd.tight o ol _ _ _ (em2 - cost) _ hop (by show c ≤ em2 - cost; omega)
+        simp only [this]
+        exact h
+
+theorem stepOp_tight {cfg : Cfg} {d : Dialect} (hd : d.OpBudget) (hne : d.NoExempt) {s s' : MState}
+    {op : Operation} {cost em1 em2 c : Nat}
+    (hfit : s'.softforkStack = s.softforkStack → cost + c ≤ em2)
+    (hgd : ∀ g, s'.softforkStack = g :: s.softforkStack → g.expectedCost ≤ em2)
+    (h : stepOp cfg d s op cost em1 = .ok (c, s')) : stepOp cfg d s op cost em2 = .ok (c, s') := by
+  cases op with
+  | Apply =>
+    simp only [stepOp] at h ⊢
+    match hvs : s.valStack, hes : s.envStack with
+    | [], _ => simp [applyOp, MState.pop, hvs, bind, Except.bind] at h
+    | [_], _ => simp [applyOp, MState.pop, hvs, bind, Except.bind] at h
+    | _ :: _ :: _, [] => simp [applyOp, MState.pop, hvs, hes, bind, Except.bind] at h
+    | ol :: o :: vals, e0 :: envs =>
+      rw [applyOp_eq cfg _ s _ _ hvs hes] at h ⊢
+      exact applyBody_tight hd hne (s := s.applyBase vals envs) hfit hgd h
+  | ExitGuard => exact h
+  | Cons => exact h
+  | SwapEval => exact h
+  | RestoreAllocator => exact h
+
+/-- without exempt guards, a successful loop with final cost `C` is the same successful loop under
+every budget that covers `C` -/
+theorem runLoop_tight {cfg : Cfg} {d : Dialect} (hd : d.OpBudget) (hne : d.NoExempt) {mc1 mc2 : Nat} (fuel : Nat) :
+    ∀ (s : MState) (cost C : Nat) (sF : MState), s.Shaped →
+      (∀ g ∈ s.softforkStack, g.operatorSet ≠ .PreHardFork) →
+      runLoop cfg d mc1 fuel s cost = some (.ok (C, sF)) → C ≤ mc2 →
+      runLoop cfg d mc2 fuel s cost = some (.ok (C, sF)) := by
+  induction fuel with
+  | zero => intro s cost C sF _ _ h; simp [runLoop_zero] at h
+  | succ n ih =>
+    intro s cost C sF hsh hex h hC
+    have hcC := runLoop_cost_ge cfg d mc1 (n + 1) s cost C sF h
+    rw [runLoop_succ] at h ⊢
+    unfold loopBody at h ⊢
+    split at h
+    · cases h
+    · rename_i hc
+      -- the limit in force in the second run
+      have hem : (s.softforkStack = [] ∧ effMax mc2 s = mc2) ∨
+          (s.softforkStack ≠ [] ∧ effMax mc2 s = effMax mc1 s) := by
+        unfold effMax
+        cases s.softforkStack with
+        | nil => exact Or.inl ⟨rfl, rfl⟩
+        | cons g r => exact Or.inr ⟨by simp, rfl⟩
+      have hc2 : ¬ cost > effMax mc2 s := by
+        rcases hem with ⟨_, e⟩ | ⟨_, e⟩ <;> rw [e] <;> omega
+      rw [if_neg hc2]
+      split at h
+      · exact h
+      · rename_i op ops hop
+        split at h
+        · cases h
+        · rename_i c s1 hst
+          have hsh1 : s1.Shaped := stepOp_shape (s := { s with opStack := ops }) rfl
+            (by simpa [MState.Shaped, hop] using hsh) hst
+          have hge := runLoop_cost_ge cfg d mc1 n s1 (cost + c) C sF h
+          have hfirst := runLoop_ok_first h
+          have hcases := stepOp_sf_cases hst
+          have hex1 : ∀ g ∈ s1.softforkStack, g.operatorSet ≠ .PreHardFork := by
+            rcases hcases with hsame | ⟨g', hpush, ⟨k, hk⟩, _⟩ | ⟨g', hpop, _⟩
+            · rw [hsame]; exact hex
+            · intro g0 hg0
+              rw [hpush] at hg0
+              rcases List.mem_cons.1 hg0 with rfl | hg0
+              · rw [hk]; exact hne k
+              · exact hex g0 hg0
+            · intro g0 hg0
+              exact hex g0 (by rw [show s.softforkStack = g' :: s1.softforkStack from hpop]
+                               exact List.mem_cons_of_mem _ hg0)
+          have hfit : s1.softforkStack = ({ s with opStack := ops } : MState).softforkStack →
+              cost + c ≤ effMax mc2 s := by
+            intro hsf
+            rcases hem with ⟨_, e⟩ | ⟨_, e⟩
+            · rw [e]; omega
+            · rw [e]
+              unfold effMax at hfirst ⊢
+              rw [hsf] at hfirst
+              exact hfirst
+          have hgd : ∀ g, s1.softforkStack = g :: ({ s with opStack := ops } : MState).softforkStack →
+              g.expectedCost ≤ effMax mc2 s := by
+            intro g hsf
+            rcases hem with ⟨_, e⟩ | ⟨_, e⟩
+            · rw [e]
+              have := runLoop_guards_le hne mc1 n s1 _ C sF hsh1 hex1 h g (by rw [hsf]; exact List.mem_cons_self)
+              omega
+            · rw [e]
+              rcases hcases with hsame | ⟨g', hpush, _, hle⟩ | ⟨g', hpop, _⟩
+              · rw [hsame] at hsf
+                exact absurd (congrArg List.length hsf) (by simp)
+              · rw [hpush] at hsf
+                cases hsf
+                exact hle (hex1 _ (by rw [hpush]; exact List.mem_cons_self)) (Nat.le_of_not_gt hc)
+              · have hp : ({ s with opStack := ops } : MState).softforkStack = g' :: s1.softforkStack := hpop
+                rw [hp] at hsf
+                exact absurd (congrArg List.length hsf) (by simp; omega)
+          simp only [stepOp_tight hd hne hfit hgd hst]
+          exact ih s1 _ C sF hsh1 hex1 h hC
+
+/-- **C02 (d), tight.**  For a dialect without cost-exempt guards: if the program succeeds under `M`
+with cost `C`, then under every budget `M'` it succeeds identically when `C ≤ M'` and fails with
+`CostExceeded` when `M' < C` (`0` standing for `u64::MAX`): the smallest sufficient budget is
+exactly the reported cost. -/
+theorem run_tight {cfg : Cfg} {d : Dialect} (hd : d.OpBudget) (hne : d.NoExempt) {fuel : Nat} {c0 : Ctr}
+    {p e : Val} {M C : Nat} {v : Val} {c : Ctr}
+    (h : runProgram cfg d fuel c0 p e M = some (.ok (C, v, c))) (M' : Nat) :
+    (C ≤ effBudget M' → runProgram cfg d fuel c0 p e M' = some (.ok (C, v, c))) ∧
+    (effBudget M' < C → runProgram cfg d fuel c0 p e M' = some (.error .CostExceeded)) := by
+  constructor
+  · intro hC
+    obtain ⟨c1, cost0, s0, sF, vs, h1, h2, h3, h4, h5⟩ := runProgram_ok_iff.1 h
+    have hsf0 := initial_sf h2
+    have h3' := runLoop_tight hd hne (mc2 := effBudget M') fuel s0 cost0 C sF (initial_shaped h2)
+      (by rw [hsf0]; intro g hg; cases hg) h3 hC
+    exact runProgram_ok_iff.2 ⟨c1, cost0, s0, sF, vs, h1, h2, h3', h4, h5⟩
+  · intro hlt
+    rcases run_dichotomy hd h M' with hok | hce
+    · have := run_sound hok
+      omega
+    · exact hce
+
+/-- `ChiaDialect::new(F)` has no cost-exempt guards unless `NEW_COST_MODEL` is set -/
+theorem chiaDialect_noExempt (cfg : Cfg) (extra : String → Option OpFn) (F : Nat)
+    (hF : hasFlag F Gen.FLAG_NEW_COST_MODEL = false) : (chiaDialect cfg extra F).NoExempt := by
+  intro n
+  have hl : (if (hasFlag F Gen.FLAG_NEW_COST_MODEL && hasFlag F Gen.FLAG_LIMITS) = true
+      then F - Gen.FLAG_LIMITS else F) = F := by simp [hF]
+  show (if hasFlag (if (hasFlag F Gen.FLAG_NEW_COST_MODEL && hasFlag F Gen.FLAG_LIMITS) = true
+      then F - Gen.FLAG_LIMITS else F) Gen.FLAG_NEW_COST_MODEL = true then _ else _) ≠ _
+  rw [hl, hF]
+  simp only [Bool.false_eq_true, if_false]
+  split
+  · simp
+  · split <;> simp
+
 end Clvm.Interp
